@@ -1,9 +1,211 @@
 package main
 
-import "verifharness/hx"
+import (
+	"fmt"
+	"strings"
 
-func runJWT(kind string, d *J, minimize bool, note string) {}
-func randJWTVC(r *hx.Rng) *J                               { return obj() }
-func runDID(kind string, d *J, note string)                {}
-func randDID(r *hx.Rng) *J                                 { return obj() }
-func runDIDKey(kind, key, note string)                     {}
+	"github.com/hyperledger/aries-framework-go/component/models/did"
+
+	"verifharness/hx"
+)
+
+func runDIDKey(kind, key, note string) {}
+
+const didID = "did:ex:123"
+
+var svcTyped = []string{"id", "type", "serviceEndpoint", "recipientKeys", "routingKeys", "priority"}
+
+// randDID: a DID document with services carrying custom properties, keys in base58, relationships referenced
+// (absolute and relative) and embedded.
+func randDID(r *hx.Rng) *J {
+	f := feat{big: r.Intn(25) == 0}
+	d := obj(kv("@context", []*J{str("https://www.w3.org/ns/did/v1"), arr(str("https://www.w3.org/ns/did/v1"))}[r.Intn(2)]), kv("id", str(didID)))
+	key := "3mJr7AoUXx2Wqd9aFaP4nQ6b1yT3kqNu7tb1eXgP6aVH"
+	vm := func(id string) *J {
+		return obj(kv("id", str(id)), kv("type", str("Ed25519VerificationKey2018")), kv("controller", str(didID)), kv("publicKeyBase58", str(key)))
+	}
+
+	d.O = append(d.O, kv("verificationMethod", arr(vm(didID+"#k1"), vm("#k2"))))
+
+	if r.Bool() {
+		d.O = append(d.O, kv("authentication", arr(str(didID+"#k1"), str("#k2"), vm(didID+"#k3"))))
+	}
+
+	if r.Bool() {
+		d.O = append(d.O, kv("keyAgreement", arr(vm("#k4"))))
+	}
+
+	n := 1 + r.Intn(3)
+	svcs := arr()
+
+	for i := 0; i < n; i++ {
+		s := obj(kv("id", str([]string{didID + "#s", "#s"}[r.Intn(2)]+fmt.Sprint(i))),
+			kv("type", []*J{str("LinkedDomains"), arr(str("A"), str("B")), str("did-communication")}[r.Intn(3)]))
+
+		switch r.Intn(3) {
+		case 0:
+			s.O = append(s.O, kv("serviceEndpoint", str("https://ex.com/ep")))
+		case 1:
+			s.O = append(s.O, kv("serviceEndpoint", obj(kv("origins", arr(str("https://ex.com"))))))
+		default:
+			s.O = append(s.O, kv("serviceEndpoint", arr(obj(kv("uri", str("https://ex.com/v2")), kv("accept", arr(str("didcomm/v2")))))))
+		}
+
+		if r.Bool() {
+			s.O = append(s.O, kv("priority", num(int64(r.Intn(3)))))
+		}
+
+		if r.Intn(3) == 0 {
+			s.O = append(s.O, kv("recipientKeys", arr(str(didID+"#k1"))), kv("routingKeys", arr(str("did:ex:r#1"))))
+		}
+
+		for _, m := range randMembers(r, 3, r.Intn(4), &f) {
+			if s.get(m.K) == nil {
+				s.O = append(s.O, m)
+			}
+		}
+
+		if r.Intn(3) == 0 {
+			s.O = append(s.O, kv("accept", arr(str("didcomm/aip2;env=rfc19"))))
+		}
+
+		shuffle(r, s.O)
+		svcs.A = append(svcs.A, s)
+	}
+
+	d.O = append(d.O, kv("service", svcs))
+	shuffle(r, d.O)
+
+	return d
+}
+
+func runDID(kind string, doc *J, note string) {
+	data := []byte(doc.JSON())
+	rec := &hx.Record{Kind: kind, Case: caseDesc{Kind: "did", Doc: data, Note: note}, Oracle: "ok", Dist: []string{"did"}}
+
+	fail := func(sig, detail string) {
+		if rec.Oracle == "ok" {
+			rec.Oracle, rec.Sig, rec.Detail = "fail", sig, detail
+		}
+	}
+
+	func() {
+		defer func() {
+			if p := recover(); p != nil {
+				fail("panic:did", fmt.Sprint(p))
+			}
+		}()
+
+		dd, err := did.ParseDocument(data)
+		if err != nil {
+			rec.Trivial, rec.Class = true, "did-error:"+firstWords(err.Error())
+			rec.Observed = map[string]string{"error": err.Error()}
+
+			return
+		}
+
+		b, err := dd.JSONBytes()
+		if err != nil {
+			fail("did:marshal", err.Error())
+			return
+		}
+
+		out, _ := parseJ(b)
+		rec.Observed = map[string]string{"out": string(b)}
+		rec.Class = "did:" + shapeOf(doc)
+
+		// re-parse
+		d2, err := did.ParseDocument(b)
+		if err != nil {
+			fail("did:reparse-fails", err.Error())
+			return
+		}
+
+		b2, _ := d2.JSONBytes()
+		if o2, _ := parseJ(b2); !jequal(o2, out) {
+			fail("did:reparse-differs", string(b2))
+			return
+		}
+
+		// defined members
+		for _, k := range []string{"id", "@context", "verificationMethod"} {
+			if !jequal(doc.get(k), out.get(k)) {
+				fail("did:member-changed:"+k, string(b))
+			}
+		}
+
+		abs := func(s string) string {
+			if strings.HasPrefix(s, "#") {
+				return didID + s
+			}
+
+			return s
+		}
+
+		for _, k := range []string{"authentication", "keyAgreement"} {
+			a, o := doc.get(k), out.get(k)
+			if a == nil {
+				continue
+			}
+
+			if o == nil || len(o.A) != len(a.A) {
+				fail("did:relationship-count:"+k, string(b))
+				continue
+			}
+
+			for i := range a.A {
+				if a.A[i].K != o.A[i].K || a.A[i].K == jStr && abs(a.A[i].S) != abs(o.A[i].S) || a.A[i].K == jObj && !jequal(a.A[i], o.A[i]) {
+					fail("did:relationship-changed:"+k, string(b))
+				}
+			}
+		}
+
+		ins, outs := doc.get("service"), out.get("service")
+		if outs == nil || len(outs.A) != len(ins.A) {
+			fail("did:service-count", string(b))
+			return
+		}
+
+		var coq []string
+
+		for i, s := range ins.A {
+			o := outs.A[i]
+			typed := obj()
+
+			for _, m := range o.O {
+				for _, k := range svcTyped {
+					if m.K == k {
+						typed.O = append(typed.O, m)
+					}
+				}
+			}
+
+			if s.coqable() && o.coqable() {
+				coq = append(coq, fmt.Sprintf("CSVC %s %s %s", coqObj(typed.O), coqObj(s.O), coqObj(o.O)))
+			}
+
+			diffs := diffMembers(s, o)
+			if len(diffs) == 0 {
+				continue
+			}
+
+			if s.hasInexact() && len(diffMembers(s.roundNumbers(), o.roundNumbers())) == 0 {
+				fail("did:number-above-2^53-loses-digits", strings.Join(diffs, ","))
+			} else {
+				fail("did:service-member-not-preserved:"+diffs[0], strings.Join(diffs, ",")+" "+string(b))
+			}
+		}
+
+		// one Coq case per record: the first service (the others are written as extra records)
+		for i, c := range coq {
+			if i == 0 {
+				rec.Coq = c
+				continue
+			}
+
+			tr.Put(&hx.Record{Kind: kind + "-service", Case: rec.Case, Oracle: "ok", Coq: c, Class: rec.Class + fmt.Sprint(i), Dist: []string{"did:service"}})
+		}
+	}()
+
+	tr.Put(rec)
+}
